@@ -10,10 +10,12 @@
 (*   c = [layout, info, sep, header, hlines, headerFirst, inputless, prompt, pointer, marker, ellipsis]           *)
 (*        layout in {"default","reverse","reverse-list"}; info in {"default","inline","hidden","right",           *)
 (*        "inline-right"}; sep: a separator is drawn (FALSE = --no-separator); header: the lines of --header;     *)
-(*        hlines: the first --header-lines input records; prompt/pointer/marker/ellipsis: texts                   *)
-(*   s = [input, cx, xoffset, list, texts, sel, multi, cy, offset, count]                                          *)
+(*        hlines: the --header-lines=N rows: the first N input records (CODE-DERIVED: N rows stay reserved, blank, *)
+(*        when the input has fewer records); prompt/pointer/marker/ellipsis: texts                                 *)
+(*   s = [input, cx, xoffset, list, texts, sel, multi, cy, offset, count, track]                                   *)
 (*        list: result ids in rank order, texts[i] the line of list[i]; sel: selected ids; multi: limit (0 = off) *)
 (*        cy: index of the current result; offset: index of the first displayed result; count: items loaded       *)
+(*        track: 0 off, 1 --track, 2 tracking the current line (actions toggle-track / track-current)              *)
 (*        xoffset: number of leading query characters scrolled out of the prompt line (0 unless a query was too long) *)
 (*                                                                                                                 *)
 (* Two layers are kept apart:                                                                                      *)
@@ -147,6 +149,7 @@ HeaderRow(t, g, c) == Spaces(Indent(c, g)) \o Fit(t, TextRoom(g, c), c, g)
 (* number of selected lines (with the limit when --multi has one) *)
 InfoText(s) ==
     Digits(N(s)) \o <<"/">> \o Digits(Max2(N(s), s.count))
+    \o (CASE s.track = 1 -> <<" ", "+", "T">> [] s.track = 2 -> <<" ", "+", "t">> [] OTHER -> <<>>)
     \o (IF s.multi > 0
         THEN IF s.multi = MaxMulti THEN <<" ", "(">> \o Digits(Len(s.sel)) \o <<")">>
              ELSE <<" ", "(">> \o Digits(Len(s.sel)) \o <<"/">> \o Digits(s.multi) \o <<")">>
